@@ -1,6 +1,8 @@
 package main
 
 import (
+	"verif/internal/checks/c08"
+	"verif/internal/ev"
 	"strings"
 	"time"
 
@@ -33,7 +35,7 @@ func relayCfg(id, tier string) relay.Config {
 		return c
 	case "C03":
 		c := relay.Config{Prop: id, Chains: 2, MaxSends: 2, Depth: 12,
-			Sends: []string{"A B erc20 3", "A B native 1", "B A back 1", "A B erc20+callok 1", "A B erc20+callrevert 1", "A B erc20+calleoa 1", "A B erc20+hookfail 1", "A B erc20+agentbad 1"},
+			Sends: []string{"A B erc20 3", "A B native 1", "B A back 1", "A B erc20+callok 1", "A B erc20+callrevert 1", "A B erc20+calleoa 1", "A B erc20+hookfail 1", "A B erc20+agentbad 1", "A B native+ctor 1"},
 			RecvForms: []string{"g1"}, AckForms: []string{"g1"}}
 		if tier == "thorough" {
 			c.MaxSends, c.Depth = 3, 16
@@ -42,7 +44,7 @@ func relayCfg(id, tier string) relay.Config {
 		return c
 	case "C04":
 		c := relay.Config{Prop: id, Chains: 3, MaxSends: 3, Depth: 5,
-			Sends: []string{"A B erc20 1", "A C erc20 1", "A B unknown 1", "A B erc20 20000", "A B feeonly1 1", "A B direct 1", "B A erc20+agentgood 3", "B A erc20+agentbad 3", "A B native 1"},
+			Sends: []string{"A B erc20 1", "A C erc20 1", "A B unknown 1", "A B erc20 20000", "A B feeonly1 1", "A B direct 1", "B A erc20+agentgood 3", "B A erc20+agentbad 3", "A B native 1", "A B native+ctor 1"},
 			RecvForms: []string{"g1"}, AckForms: []string{"g1"}}
 		if tier == "thorough" {
 			c.MaxSends, c.Depth = 4, 9
@@ -50,7 +52,7 @@ func relayCfg(id, tier string) relay.Config {
 		return c
 	case "C05":
 		c := relay.Config{Prop: id, Chains: 2, MaxSends: 2, Depth: 12,
-			Sends: []string{"A B erc20 3", "A B erc20+callrevert 1", "B A native 3", "A B feeonly1 1"},
+			Sends: []string{"A B erc20 3", "A B erc20+callrevert 1", "B A native 3", "A B feeonly1 1", "A B erc20+hookfail 1", "A B erc20+agentbad 1"},
 			RecvForms: []string{"g1", "g2"}, AckForms: []string{"g1", "g2", "old", "conflict", "early", "dup2", "altpkt"}}
 		if tier == "thorough" {
 			c.MaxSends, c.Depth = 3, 16
@@ -90,6 +92,9 @@ func registerRelay(id string, rule string, assume []string, minClasses int) {
 		spec: func(tier string) bfs.Spec {
 			cfg := relayCfg(id, tier)
 			d := 170 * time.Second
+			if id == "C04" {
+				d = 420 * time.Second // ten send kinds x three destinations: the quick frontier needs ~100 s on an idle 16-core machine
+			}
 			if strings.HasPrefix(tier, "thorough") {
 				d = 25 * time.Minute
 			}
@@ -107,6 +112,10 @@ func registerRelay(id string, rule string, assume []string, minClasses int) {
 			return m
 		},
 		variants: map[string][]string{"C01": {"tss"}, "C05": {"tss"}}[id],
+		extra: map[string]func(r *ev.Run, tier string) (int64, int64){
+			// BSC- and ETH-secured counterparties: the proof component space of their verifiers (the C08 enumeration) is part of C02 too
+			"C02": func(r *ev.Run, tier string) (int64, int64) { return c08.Run(r, "quick") },
+		}[id],
 		minClasses: minClasses,
 		propFilter: id,
 	})
@@ -114,7 +123,7 @@ func registerRelay(id string, rule string, assume []string, minClasses int) {
 
 func init() {
 	assume := []string{"tendermint light client and IAVL proofs are the real ones; trusting period never reached within the horizon", "heights/times/app hashes are dropped from the canonical key (futures depend on them only through provability of pending artefacts)", "system contracts are exercised as byte code, not analysed"}
-	registerRelay("C02", "explicit-state BFS over three real chains; in every reachable state that has a currently valid receive or acknowledgement message, every single mutation (thorough: every pair) of packet fields, ack fields, proof bytes, proven key, proof height, stated height and signer is delivered to a fork of that state; oracle = ground truth from the counterparty world: accepted => the source store at proofHeight-1 holds sha256(canonical packet) under exactly that triple and the consensus root equals the source app hash (acks: local commitment matches and the counterparty stores sha256(ack bytes)); rejected => store dumps unchanged", assume, 8)
+	registerRelay("C02", "(1) explicit-state BFS over three real chains (Tendermint-secured); in every reachable state that has a currently valid receive or acknowledgement message, every single mutation (thorough: every pair) of packet fields, ack fields, proof bytes, proven key, proof height, stated height and signer is delivered to a fork of that state; oracle = ground truth from the counterparty world: accepted => the source store at proofHeight-1 holds sha256(canonical packet) under exactly that triple and the consensus root equals the source app hash (acks: local commitment matches and the counterparty stores sha256(ack bytes)); rejected => store dumps unchanged. (2) BSC- and ETH-secured counterparties: the exhaustive proof-component enumeration of C08 (storage worlds x heights x delay settings x queries x 24 proof mutations, oracle from the generator's own tries) is run as part of this check; its cases are counted under evaluations", assume, 8)
 	registerRelay("C03", "explicit-state BFS over two real chains: sends of ERC-20 / native / returning bound tokens with call data that succeeds, reverts, targets an EOA, fails in the post-transaction hook, or nests a failing cross-chain send; relays and acks in all orders; after every state the reference ledger of transfers (sent -> executed ok|failed -> acked|refunded) is compared with outTokens, endpoint escrow, bindings.amount and bound-token supply; error acks must leave no EVM/bank effect outside the packet contract; refunds must equal the amount exactly once", assume, 6)
 	registerRelay("C04", "explicit-state BFS on chain A with clients for B and C: valid and failing sends (unknown destination, amount above balance, direct packet.sendPacket by a user), several destinations, sends triggered from inside a received packet (agent contract), interleaved with receives; after every tx: keeper counter = contract counter = ledger, every new commitment is numbered next, equals sha256 of the emitted bytes and has a matching event; failed sends change nothing", assume, 5)
 	registerRelay("C05", "explicit-state BFS over two real chains (Tendermint-secured, and a variant where one direction is TSS-secured) with duplicated, conflicting, early and repeated acknowledgements, acknowledgements carrying an altered packet body under the same triple, and packets whose execution fails; every tx: acks/ keys never change or disappear, an accepted receive writes exactly one ack = sha256(announced bytes), a commitment disappears only in an accepted ack whose packet hashes to it and whose ack bytes the counterparty really stores (ground truth from the counterparty's store), ackStatus 0->1|2 once, relayer fee once, refund once", assume, 6)
